@@ -72,7 +72,8 @@ pub struct VoiceSpec {
     pub streams: Vec<StreamSpec>,
     /// syntactic style of the written file: bit 0 shuffle header lines inside their section,
     /// bit 1 blank lines between header lines, bit 2 unquoted question patterns where legal,
-    /// bit 3 extra blank lines between questions / trees, bit 4 extra spaces inside node lines
+    /// bit 3 extra blank lines between questions / trees, bit 4 extra spaces inside node lines,
+    /// bit 5 a shared, de-duplicated window table (rows stored once, in reverse order of first use)
     pub style: u32,
     // derived, for oracles
     pub stage: usize,
@@ -179,17 +180,33 @@ impl VoiceSpec {
         let dur_pdf = put(&self.duration.pdf_bytes());
         let dur_tree = put(self.duration.tree_text_styled(self.style).as_bytes());
         let mut win_pos = Vec::new();
-        for s in &self.streams {
-            let mut v = Vec::new();
-            for w in &s.windows {
-                let text = format!(
-                    "{} {}\n",
-                    w.len(),
-                    w.iter().map(|c| fmt_f(*c)).collect::<Vec<_>>().join(" ")
-                );
-                v.push(put(text.as_bytes()));
+        let win_text = |w: &Vec<f64>| format!("{} {}\n", w.len(), w.iter().map(|c| fmt_f(*c)).collect::<Vec<_>>().join(" "));
+        if self.style & 32 != 0 {
+            // a shared window table: every distinct row is stored once (last used first), and the
+            // STREAM_WIN entries of all streams point into it - the ranges of one stream are then
+            // neither adjacent nor ascending, and streams share rows
+            let mut rows: Vec<String> = Vec::new();
+            for s in &self.streams {
+                for w in &s.windows {
+                    let t = win_text(w);
+                    if !rows.contains(&t) {
+                        rows.push(t);
+                    }
+                }
             }
-            win_pos.push(v.join(","));
+            let placed: Vec<(String, String)> = rows.iter().rev().map(|t| (t.clone(), put(t.as_bytes()))).collect();
+            for s in &self.streams {
+                let v: Vec<String> = s.windows.iter().map(|w| { let t = win_text(w); placed.iter().find(|(x, _)| *x == t).map(|(_, r)| r.clone()).unwrap_or_default() }).collect();
+                win_pos.push(v.join(","));
+            }
+        } else {
+            for s in &self.streams {
+                let mut v = Vec::new();
+                for w in &s.windows {
+                    v.push(put(win_text(w).as_bytes()));
+                }
+                win_pos.push(v.join(","));
+            }
         }
         let pdf_pos: Vec<String> = self.streams.iter().map(|s| put(&s.model.pdf_bytes())).collect();
         let tree_pos: Vec<String> = self.streams.iter().map(|s| put(s.model.tree_text_styled(self.style).as_bytes())).collect();
@@ -828,7 +845,7 @@ pub fn gen_voice(t: &mut Tape, o: GenOpts) -> VoiceSpec {
         fullcontext_version: (*t.pick(&["1.0", "1.0", "1.1", "2.0", "0.9"])).into(),
         duration,
         streams,
-        style: if t.chance(0.5) { t.below(32) as u32 } else { 0 },
+        style: if t.chance(0.5) { t.below(64) as u32 } else { 0 },
         stage,
         use_log_gain,
         alpha,
